@@ -21,6 +21,7 @@ extern carquet_status_t carquet_read_next_page(
     int16_t* def_levels,
     int16_t* rep_levels,
     int64_t* values_read,
+    int64_t* non_null_read,
     carquet_error_t* error);
 
 /* ============================================================================
@@ -44,9 +45,10 @@ int64_t carquet_column_read_batch(
         if (reader->values_remaining > 0 && !reader->page_loaded) {
             carquet_error_t error = CARQUET_ERROR_INIT;
             int64_t values_read = 0;
+            int64_t non_null_read = 0;
             uint8_t dummy[16];
             carquet_status_t status = carquet_read_next_page(
-                reader, dummy, 0, NULL, NULL, &values_read, &error);
+                reader, dummy, 0, NULL, NULL, &values_read, &non_null_read, &error);
             (void)status;
         }
         return 0;
@@ -58,6 +60,7 @@ int64_t carquet_column_read_batch(
 
     carquet_error_t error = CARQUET_ERROR_INIT;
     int64_t total_read = 0;
+    int64_t total_non_null = 0;  /* values[] is dense: only non-null values are stored */
     size_t value_size = 0;
 
     /* Determine value size for pointer arithmetic */
@@ -90,14 +93,15 @@ int64_t carquet_column_read_batch(
     /* Read pages until we have enough values or run out */
     while (total_read < max_values && reader->values_remaining > 0) {
         int64_t values_read = 0;
+        int64_t non_null_read = 0;
         int64_t to_read = max_values - total_read;
 
-        uint8_t* value_ptr = (uint8_t*)values + total_read * value_size;
+        uint8_t* value_ptr = (uint8_t*)values + total_non_null * value_size;
         int16_t* def_ptr = def_levels ? def_levels + total_read : NULL;
         int16_t* rep_ptr = rep_levels ? rep_levels + total_read : NULL;
 
         carquet_status_t status = carquet_read_next_page(
-            reader, value_ptr, to_read, def_ptr, rep_ptr, &values_read, &error);
+            reader, value_ptr, to_read, def_ptr, rep_ptr, &values_read, &non_null_read, &error);
 
         if (status != CARQUET_OK) {
             if (total_read > 0) {
@@ -112,6 +116,7 @@ int64_t carquet_column_read_batch(
         }
 
         total_read += values_read;
+        total_non_null += non_null_read;
     }
 
     return total_read;
